@@ -15,3 +15,9 @@ from maze_dataset.dataset.maze_dataset import MazeDataset
 def minimal_roundtrip(ds):
     "loading the minimal serialization of a dataset back (in memory)"
     return MazeDataset._load_minimal(ds._serialize_minimal())
+
+
+def soln_cat_roundtrip(ds):
+    "loading the concatenated-solutions minimal serialization of a dataset back (in memory)"
+    d = ds._serialize_minimal_soln_cat()
+    return MazeDataset._load_minimal_soln_cat(d)
